@@ -62,7 +62,7 @@ def c07_runs(tier):
     return runs
 
 
-reg('C07', level='model_checking', runs=c07_runs, quick_budget_s=240, thorough_budget_s=1500,
+reg('C07', level='model_checking', runs=c07_runs, quick_budget_s=240, thorough_budget_s=1200,
     technique='stateless model checking of the real ThreadPool/TaskSet/parallel_for code: the pool is brought to the state "every worker blocked in its futex wait", timed waits are then forbidden to expire, one producer submits without waiting, and every kernel choice of which futex waiters a FUTEX_WAKE reaches is explored at no cost',
     level_text='pools of 1-3 threads x {pool.schedule, schedule(ForceQueuingTag), pool.scheduleBulk, TaskSet::schedule, TaskSet::scheduleBulk (ring fast path for k<=N, central queue for k=N+1), ConcurrentTaskSet(kHeavy)::schedule (steal ring), parallel_for(wait=false) static and adaptive} x k=1..N+1 tasks x {short bodies, bodies that stay busy until min(k,N) of them run}; all futex waiter picks. quick: 0 preemptions on N=2 (every path with k=2, the ring paths and the central-queue paths with k=1, busy bodies on {q,cs,tb}), N=3 tb k in {1,3}, N=1 k=1 on four paths, plus 1 preemption on N=2 k=2 {q busy bodies, cs} and N=1 k=2 q. thorough: the whole matrix with 0 preemptions (N=1: 1), 1 preemption on every N=2 path for k in {1,2}, N=3 k=1 {q,tb}, 2 on N=1 k=2 {q,tb}. Oracle: every task body starts (task sets drain) while no timed wait may expire; a state with an unstarted task and every thread parked is a deadlock verdict = "depends on the backstop".',
     level_note='the all-parked precondition is established exactly (T0 sleeps in virtual time, which can only expire when every worker is blocked in futex_wait); wake group size is the default 8, so pools of <=3 threads are a single wake group (a -DDISPENSO_TUNE_WAKE_GROUP_SIZE=2 build was run by hand, see harness/c03_lifecycle.notes.md)',
@@ -126,7 +126,7 @@ def c09_runs(tier):
     return runs
 
 
-reg('C09', level='model_checking', runs=c09_runs, quick_budget_s=300, thorough_budget_s=1800,
+reg('C09', level='model_checking', runs=c09_runs, quick_budget_s=300, thorough_budget_s=1500,
     technique='stateless model checking of the real ThreadPool: ~ThreadPool / resize(n) / setSignalingWake(b) issued at every point of the worker loop reachable within the preemption bound, with timed futex waits forbidden to expire in wake mode (in poll mode the 200 us poll period is the mechanism and the oracle is termination)',
     level_text='N in {1,2,3} x {wake mode, poll mode} x {no task, one task submitted and not awaited, one task whose body is running} x {call issued at once, at the last worker\'s enterSleep, with every worker blocked in futex_wait} x {destroy, resize(0), resize(N-1), resize(N+1), setSignalingWake(false,200us), setSignalingWake(true)}; all interleavings with <=2 deviations for N=1 (3 on three shapes in thorough), <=1 for N=2, the default schedules plus all free switches for N=3; quick runs a 39-configuration subset of the 132-configuration thorough matrix; every execution ends with a second shutdown of the freshly started workers. Oracle: the call returns (a worker left parked shows as T0 blocked in join = deadlock verdict), afterwards live modelled threads == 1 + new size, numThreads() == new size, a queued task has run when ~ThreadPool returns.',
     level_note='timeouts are switched off only when the call under test begins: a submission racing a worker that is just parking may legitimately need the backstop (documented in thread_pool.h) and is not the subject of C09',
@@ -188,7 +188,7 @@ def c03_runs(tier):
     return runs
 
 
-reg('C03', level='model_checking', runs=c03_runs, quick_budget_s=330, thorough_budget_s=1800,
+reg('C03', level='model_checking', runs=c03_runs, quick_budget_s=330, thorough_budget_s=1500,
     technique='stateless model checking of the real ThreadPool with a submitting thread, a resizing thread and a virtual-time watchdog; besides the free-running race, "slow user code" variants (a bulk generator / functor copy that returns only after the whole resize script ran) place a complete resize at every user-code hook inside the submission call without spending deviations',
     level_text='N in {1,2} x {pool.schedule, TaskSet::schedule, TaskSet::scheduleBulk (ring fast path), ConcurrentTaskSet(kHeavy)::schedule (steal ring), static parallel_for with wait, dispenso::async + Future::wait} x resize scripts {[N+1],[N-1],[0],[0,N],[N-1,N+1]}: free-running race with <=1 deviation where every switch between enabled threads counts as a deviation (2 on two shapes in thorough); directed variants with the whole resize script at user-code hook g of the submission call (quick g in {1,3} for the ring paths and g=2 for the others on N=2; thorough g=1..6 / 1..4 for every script), default schedule. Oracle: every body runs exactly once, all of the submitter\'s tasks have finished when wait() returns, wait() and resize() return within 3 s of virtual time with the 100 ms backstop allowed to fire (so only a task that nobody will ever run is reported), numThreads() and the live worker count equal the last size, every body has run when ~ThreadPool returns and none runs afterwards.',
     level_note='concurrent schedule()/resize() is supported usage (thread_pool_test ResizeConcurrent, ResizeMoreConcurrent, ResizeGrowConcurrentBulk; comments in resizeLocked). The engine\'s spin heuristic parks the resizer\'s ring-drain loop until another thread writes, so "resize completes while the submitter is preempted inside the ring fast path" is not reachable in the free-running programs; the directed variants exist to cover exactly that window (see notes).',
